@@ -114,6 +114,279 @@ RULE_BYTES = ("TLC enumerates every (length, start alignment, match placement) o
               "a vector is non-trivial when its expected result is a match at offset > 0 / a count > 0; distinct = distinct vectors")
 
 
+ITER_INV = ["WindowOK", "OnlyMatches", "FrontAscending", "BackDescending", "NoDuplicate", "WindowIsRest",
+            "ExactlyAllWhenDrained", "NoneForever", "HintBrackets", "CountIsRemaining", "EmitReplay"]
+
+
+def iter_part(ctx, verdict_classes):
+    """MemchrIter: every match set x every interleaving of next/next_back, replayed on every iterator."""
+    binp = C.build_harness()
+    top = 9 if ctx.quick else 10
+    shards = [("it0", "MemchrIter", dict(MinLen=0, MaxLen=6, ExtraNones=3, Emit=True), ITER_INV, 2)]
+    for n in range(7, top + 1):
+        shards.append(("it%d" % n, "MemchrIter", dict(MinLen=n, MaxLen=n, ExtraNones=3 if n < 10 else 2, Emit=True), ITER_INV, 4))
+    res = run_shards(ctx, shards, timeout=3000)
+    vec = C.cat_files([res[s[0]]["vec_path"] for s in shards], os.path.join(ctx.dir, "iter.ndjson"))
+    n = sum(res[s[0]]["vectors"] for s in shards)
+    ctx.traces += n
+    ctx.nontrivial += n  # every behaviour is a distinct (match set, call order); all but the empty match sets are non-trivial
+    v, s = (2, 3) if ctx.quick else (3, 5)
+    rep, rc, err = C.run_harness(ctx, binp, ["replay-iter", "--in", vec, "--variants", v, "--stretches", s, "--threads", C.NCPU], "iter")
+    if rep is None:
+        raise ToolError("replayer failed rc=%s: %s" % (rc, err[-2000:]))
+    C.absorb_report(ctx, rep, verdict_classes, "iter")
+    for force in ("sse2", "fallback"):
+        rep, rc, err = C.run_harness(ctx, binp, ["replay-iter", "--in", vec, "--only-top", "--variants", 1, "--stretches", 3, "--threads", C.NCPU],
+                                     "iter_%s" % force, env_extra={"MEMCHR_VERIF_FORCE": force})
+        if rep is None:
+            raise ToolError("replayer failed rc=%s: %s" % (rc, err[-2000:]))
+        C.absorb_report(ctx, rep, verdict_classes, "iter@%s" % force)
+    ctx.evaluations += sum(v for k, v in ctx.counters.items() if k.endswith("iter_calls_exec"))
+
+
+RULE_ITER = ("TLC enumerates every match set of every haystack length within the bounds and, for each, every interleaving of next/next_back "
+             "until three None results were observed (history kept as a state variable so each call order is a distinct behaviour); all "
+             "iterator invariants are evaluated in every prefix; each complete behaviour is replayed on Memchr/Memchr2/Memchr3 and One/Two/Three::iter "
+             "of every backend (plus forced dispatch), identity and stretched, with size_hint, count() of a clone and the future of a mid-iteration clone compared")
+
+
+def c06(ctx):
+    iter_part(ctx, {"result", "panic"})
+    return C.finish(ctx, "model_checking", RULE_ITER)
+
+
+def replay_cmd(ctx, binp, cmd, vec, tag, classes, extra=(), env=None):
+    args = [cmd, "--in", vec, "--threads", C.NCPU, "--tmp", os.path.join(ctx.dir, "iso_" + tag)] + list(extra)
+    rep, rc, err = C.run_harness(ctx, binp, args, tag, env_extra=env)
+    if rep is None:
+        raise ToolError("replayer %s failed rc=%s: %s" % (cmd, rc, err[-2000:]))
+    C.absorb_report(ctx, rep, classes, tag)
+    return rep
+
+
+def sum_exec(ctx, suffixes):
+    return sum(v for k, v in ctx.counters.items() if any(k.endswith(x) for x in suffixes))
+
+
+IE_INV = ["ResultIsEquality", "WrappersOK", "Safe", "Linear", "EmitReplay"]
+IE_ARMS = {"w4_eq", "w4_ne", "w2_eq", "w2_ne", "w1_eq", "w1_ne", "w_none"}
+
+
+def c18(ctx):
+    binp = C.build_harness()
+    shards = [("ie", "MC_IsEqual", dict(MaxLen=7 if ctx.quick else 8, LongLen=48 if ctx.quick else 72, Emit=True), IE_INV, 4)]
+    res = run_shards(ctx, shards)
+    vec = res["ie"]["vec_path"]
+    n, _ = C.collect_arms(ctx, "IsEqual", vec)
+    C.require_arms(ctx, "IsEqual", IE_ARMS)
+    ctx.traces += n
+    ctx.nontrivial += n
+    replay_cmd(ctx, binp, "replay-iseq", vec, "iseq", {"result", "panic", "oob"})
+    ctx.evaluations = sum_exec(ctx, ["iseq_exec"])
+    return C.finish(ctx, "model_checking",
+                    "TLC enumerates all pairs of binary sequences with lengths 0..MaxLen (every tail residue, every content) and all equal-length pairs up to LongLen "
+                    "differing at <= 2 positions; the L-model of is_equal_raw is checked against sequence equality and the wrappers against starts_with/ends_with; "
+                    "every pair is replayed on is_equal/is_equal_raw/is_prefix/is_suffix with value tables, 8x8 relative alignments and both operands abutting PROT_NONE pages; distinct = distinct pairs")
+
+
+SUBC = dict(HASHBITS=4, MASKBITS=4, PAIRCAP=4, MASKKIND="sensible", MIN_SKIPS=2, MIN_SKIP_BYTES=2, MODK=2,
+            RKFAST=4, ONESHOT=8, MAXP=3, VBS=2, MAXRANK=1)
+MM_INV = ["FindIsLeftmost", "RFindIsRightmost", "IterIsGreedy", "RevIterIsGreedy", "EmptyNeedleEveryOffset", "NoPanic",
+          "LinearFind", "LinearIter", "EmitReplay"]
+SO_INV = ["Mirror", "GreedyHeads", "LiftLemma", "EmitReplay"]
+TW_INV = ["FwdOK", "RevOK", "NoUnderflow", "FwdNoSkip", "RevNoSkip", "PrepLinear", "SearchLinear", "EmitReplay"]
+B1_INV = ["RabinKarpFwdOK", "RabinKarpRevOK", "ShiftOrOK", "RKCost", "EmitReplay"]
+PP_INV = ["FindOK", "PrefilterOK", "PortableOK", "Safe", "NoBad", "Linear", "EmitReplay"]
+PAIR_INV = ["SelectionValid", "RarestFirst", "IndicesExact", "EmitReplay"]
+
+
+def sub(keys, **kw):
+    d = {k: SUBC[k] for k in keys}
+    d.update(kw)
+    return d
+
+
+K_PAIR = ["HASHBITS", "MASKBITS", "PAIRCAP"]
+K_PP = K_PAIR + ["MASKKIND"]
+K_TW = K_PP + ["MIN_SKIPS", "MIN_SKIP_BYTES", "MODK"]
+K_MM = K_TW + ["RKFAST", "ONESHOT", "MAXP", "VBS", "MAXRANK"]
+
+
+def memmem_shards(ctx, parts, maxn, maxh, avails=("avx2", "vec", "none"), prefs=("auto", "none"), ranks=(0, 2), alpha=(0, 1), tagp="mm", extra=None):
+    """MC_Memmem sharded by CPU-feature outcome and needle-length class."""
+    S = []
+    for a in avails:
+        for (lo, hi) in ((0, min(3, maxn)), (4, maxn)):
+            if lo > hi:
+                continue
+            c = sub(K_MM, Alpha=set(alpha), MinN=lo, MaxN=hi, MaxH=maxh, Avails={a}, Prefs=set(prefs), Ranks=set(ranks), Parts=set(parts), Emit=False)
+            if extra:
+                c.update(extra)
+            S.append(("%s_%s_%d" % (tagp, a, lo), "MC_Memmem", c, MM_INV, 4))
+    return S
+
+
+def oracle_shards(ctx, big=False):
+    """P-layer vectors for S->I plus the oracle/lifting lemmas."""
+    q = ctx.quick
+    S = [("so_lift", "MC_SubOracle", dict(Alpha={0, 1}, MinN=0, MaxN=4, MaxH=7 if q else 8, Scales={2, 3}, CheckLift=True, Emit=False), SO_INV, 4)]
+    mxn, mxh = (5, 9) if q else (6, 11)
+    for lo, hi in ((0, 3), (4, 4), (5, 5), (6, 6)):
+        if lo > mxn:
+            continue
+        S.append(("so_b%d" % lo, "MC_SubOracle", dict(Alpha={0, 1}, MinN=lo, MaxN=min(hi, mxn), MaxH=mxh, Scales={2}, CheckLift=False, Emit=True), SO_INV, 3))
+    S.append(("so_t", "MC_SubOracle", dict(Alpha={0, 1, 2}, MinN=1, MaxN=3, MaxH=6 if q else 7, Scales={2}, CheckLift=False, Emit=True), SO_INV, 3))
+    return S
+
+
+def vec_of(ctx, res, shards, name):
+    paths = [res[s[0]]["vec_path"] for s in shards if res[s[0]]["vectors"] > 0]
+    out = C.cat_files(paths, os.path.join(ctx.dir, name))
+    n = sum(res[s[0]]["vectors"] for s in shards)
+    return out, n
+
+
+def mm_replay(ctx, binp, vec, groups, classes, lifts, forces=("avx2", "sse2", "fallback"), tag="mm"):
+    for f in forces:
+        replay_cmd(ctx, binp, "replay-mm", vec, "%s@%s" % (tag, f), classes, extra=["--lifts", lifts, "--groups", groups, "--force", f])
+
+
+RULE_SUB = ("MC_Memmem: TLC evaluates the loop-level models of the meta searcher (Two-Way with the adaptive prefilter threaded through, packed pair, "
+            "Rabin-Karp, routing) for every needle x haystack x CPU-feature outcome x prefilter setting x ranker within the listed (scaled) constants against "
+            "the Bytes oracles; MC_SubOracle emits the oracle values of every (needle, haystack) pair within its bounds and checks the lifting lemma; each "
+            "vector is replayed 1:1 and lifted by block substitution/padding (needles > 32 bytes, haystacks > 64) on the public API under each forced "
+            "dispatch level; non-trivial = the needle occurs in the haystack; distinct = distinct (needle, haystack) vectors")
+
+
+def substring(ctx, parts, groups, classes, mm_bounds, lifts=None):
+    binp = C.build_harness()
+    q = ctx.quick
+    maxn, maxh = mm_bounds
+    ms = memmem_shards(ctx, parts, maxn, maxh)
+    os_ = oracle_shards(ctx)
+    res = run_shards(ctx, ms + os_, timeout=3000)
+    vec, n = vec_of(ctx, res, os_, "mm.ndjson")
+    ctx.traces += n
+    ctx.nontrivial += sum(1 for v in C.read_vectors(vec) if v["find"] >= 0)
+    mm_replay(ctx, binp, vec, groups, classes, lifts or (6 if q else 14))
+    ctx.evaluations += sum_exec(ctx, ["mm_exec", "prefilter_exec"])
+
+
+def c03(ctx):
+    substring(ctx, ["find"], "find", {"result", "panic"}, (5, 8) if ctx.quick else (6, 9))
+    return C.finish(ctx, "model_checking", RULE_SUB)
+
+
+def c04(ctx):
+    substring(ctx, ["rfind"], "rfind", {"result", "panic"}, (5, 9) if ctx.quick else (6, 11))
+    return C.finish(ctx, "model_checking", RULE_SUB)
+
+
+def c08(ctx):
+    substring(ctx, ["iter", "riter"], "iter,riter", {"result", "panic"}, (5, 7) if ctx.quick else (5, 9))
+    return C.finish(ctx, "model_checking", RULE_SUB)
+
+
+def c10(ctx):
+    binp = C.build_harness()
+    q = ctx.quick
+    # all rankers on a 3-letter alphabet (27, incl. constant and non-injective), both prefilter settings, every CPU-feature outcome
+    ms = memmem_shards(ctx, ["find", "iter"], 4 if q else 5, 6 if q else 7, ranks=(0, 1, 2), alpha=(0, 1, 2), tagp="mm3")
+    ms += memmem_shards(ctx, ["find", "iter"], 5, 7 if q else 9, ranks=(0, 2), tagp="mm2")
+    os_ = oracle_shards(ctx)
+    res = run_shards(ctx, ms + os_, timeout=3000)
+    vec, n = vec_of(ctx, res, os_, "mm.ndjson")
+    ctx.traces += n
+    ctx.nontrivial += sum(1 for v in C.read_vectors(vec) if v["find"] >= 0)
+    mm_replay(ctx, binp, vec, "cfg", {"result", "panic"}, 6 if q else 12)
+    ctx.evaluations += sum_exec(ctx, ["mm_exec"])
+    return C.finish(ctx, "model_checking", RULE_SUB + "; C10: the ranker is a nondeterministic function in the model (all functions Alpha -> Ranks), and the replay runs a ranker table "
+                    "(constant 0/255, identity, reversed, seeded random, needle bytes commonest/rarest) x Prefilter::{None,Auto}")
+
+
+def blocks_shards(ctx):
+    q = ctx.quick
+    S = []
+    for lo, hi in ((1, 4), (5, 5)) + (() if q else ((6, 6),)):
+        S.append(("tw%d" % lo, "MC_TwoWay", sub(K_TW, Alpha={0, 1}, MinN=lo, MaxN=hi, MaxH=9 if q else 10, Emit=False), TW_INV, 4))
+    S.append(("tw3", "MC_TwoWay", sub(K_TW, MODK=2, Alpha={0, 1, 2}, MinN=1, MaxN=3 if q else 4, MaxH=6 if q else 7, Emit=False), TW_INV, 4))
+    S.append(("b1", "MC_SubBlocks1", sub(["HASHBITS", "MASKBITS"], Alpha={0, 1}, MaxN=5, MaxH=9 if q else 10, Emit=False), B1_INV, 4))
+    S.append(("b1h", "MC_SubBlocks1", dict(HASHBITS=2, MASKBITS=3, Alpha={0, 1, 2}, MaxN=3, MaxH=6, Emit=False), B1_INV, 3))
+    return S
+
+
+def pp_shards(ctx, emit=True):
+    q = ctx.quick
+    S = []
+    for vb, mk, mn, mx, ex, alpha in ((2, "sensible", 2, 4, 5 if q else 6, {0, 1}), (4, "sensible", 2, 3, 6 if q else 8, {0, 1}),
+                                      (2, "neon", 2, 3, 5, {0, 1}), (4, "neon", 2, 3, 6 if q else 8, {0, 1}), (2, "sensible", 2, 3, 3 if q else 4, {0, 1, 2})):
+        S.append(("pp%d%s%d" % (vb, mk[0], len(alpha)), "MC_PackedPair",
+                  sub(K_PAIR, MASKKIND=mk, VB=vb, Alpha=alpha, MinN=mn, MaxN=mx, Extra=ex, Emit=emit and mk == "sensible"), PP_INV, 4))
+    return S
+
+
+PP_ARMS = {"panic", "loop_hit", "loop_miss", "tail_short", "tail_hit", "tail_miss", "tail_none", "p_panic", "p_loop_hit", "p_loop_miss", "p_tail_hit", "p_tail_miss", "p_tail_none"}
+
+
+def c12(ctx):
+    binp = C.build_harness()
+    bs = blocks_shards(ctx)
+    ps = pp_shards(ctx)
+    os_ = oracle_shards(ctx)
+    res = run_shards(ctx, bs + ps + os_, timeout=3000)
+    vec, n = vec_of(ctx, res, os_, "mm.ndjson")
+    pvec, pn = vec_of(ctx, res, ps, "pp.ndjson")
+    C.collect_arms(ctx, "PackedPair", pvec)
+    C.require_arms(ctx, "PackedPair", PP_ARMS)
+    ctx.traces += n + pn
+    ctx.nontrivial += sum(1 for v in C.read_vectors(vec) if v["find"] >= 0)
+    mm_replay(ctx, binp, vec, "blocks", {"result", "panic"}, 5 if ctx.quick else 10, forces=("avx2",))
+    replay_cmd(ctx, binp, "replay-pp", pvec, "pp", {"result", "panic"})
+    ctx.evaluations += sum_exec(ctx, ["mm_exec", "pp_scaled_exec", "pp_real_exec", "prefilter_exec"])
+    return C.finish(ctx, "model_checking",
+                    "MC_TwoWay / MC_SubBlocks1 / MC_PackedPair: TLC steps the loop-level models of Two-Way (forward/reverse, small/large period, every outer iteration), "
+                    "Rabin-Karp (forward/reverse, scaled hash width), Shift-Or (scaled mask) and the generic packed-pair find over ALL needles x haystacks over 2- and "
+                    "3-letter alphabets within the bounds; every pair is replayed (1:1 and lifted) on twoway/rabinkarp/shiftor/packedpair finders; packed-pair vectors "
+                    "are replayed on the real generic code at the model width (load sequence must agree) and padded on SSE2/AVX2")
+
+
+def c11(ctx):
+    binp = C.build_harness()
+    ps = pp_shards(ctx)
+    os_ = oracle_shards(ctx)
+    res = run_shards(ctx, ps + os_, timeout=3000)
+    vec, n = vec_of(ctx, res, os_, "mm.ndjson")
+    pvec, pn = vec_of(ctx, res, ps, "pp.ndjson")
+    C.collect_arms(ctx, "PackedPair", pvec)
+    C.require_arms(ctx, "PackedPair", PP_ARMS)
+    ctx.traces += n + pn
+    ctx.nontrivial += sum(1 for v in C.read_vectors(pvec) if v["find"] >= 0)
+    replay_cmd(ctx, binp, "replay-pp", pvec, "pp", {"result", "panic"})
+    mm_replay(ctx, binp, vec, "blocks", {"result", "panic"}, 5 if ctx.quick else 10, forces=("avx2",))
+    ctx.evaluations += sum_exec(ctx, ["pp_scaled_exec", "pp_real_exec", "prefilter_exec"])
+    return C.finish(ctx, "model_checking",
+                    "MC_PackedPair: all needles x every ordered pair of distinct offsets x all haystack contents for every length 0..minLen+Extra, both mask kinds "
+                    "(the NEON under-masking is modelled as the code has it); invariants prefilter <= FindSub, None => absent, candidate has both pair bytes, "
+                    "prefilter = its F-spec, loads in bounds; replayed on the real generic code at VB=2,4 and padded on SSE2/AVX2/portable finders")
+
+
+def c19(ctx):
+    binp = C.build_harness()
+    q = ctx.quick
+    shards = [("pair3", "MC_Pair", sub(K_PAIR, Alpha={0, 1, 2}, MaxN=6 if q else 7, Ranks={0, 1, 2}, Emit=True), PAIR_INV, 4),
+              ("pair2", "MC_Pair", sub(K_PAIR, PAIRCAP=6, Alpha={0, 1}, MaxN=8 if q else 10, Ranks={0, 1}, Emit=True), PAIR_INV, 4)]
+    res = run_shards(ctx, shards)
+    vec, n = vec_of(ctx, res, shards, "pair.ndjson")
+    ctx.traces += n
+    ctx.nontrivial += n
+    replay_cmd(ctx, binp, "replay-pair", vec, "pair", {"result", "panic"})
+    ctx.evaluations += sum_exec(ctx, ["pair_exec"])
+    return C.finish(ctx, "model_checking",
+                    "MC_Pair: all needles over a 3-letter alphabet x all 27 rankers (constant, non-injective, adversarial) with the scan transcribed step by step and the "
+                    "cap scaled; invariants None <=> |n| < 2, offsets distinct, in range, below the cap, with_indices accepts exactly distinct in-range pairs; every "
+                    "behaviour replayed on Pair::with_ranker / with_indices")
+
+
 def c01(ctx):
     byte_search(ctx, ["find"], {"result", "panic"})
     return C.finish(ctx, "model_checking", RULE_BYTES)
@@ -126,10 +399,11 @@ def c02(ctx):
 
 def c07(ctx):
     byte_search(ctx, ["count"], {"result", "panic"})
+    iter_part(ctx, {"count", "panic"})
     return C.finish(ctx, "model_checking", RULE_BYTES)
 
 
-RECIPES = {"C01": c01, "C02": c02, "C07": c07}
+RECIPES = {"C01": c01, "C02": c02, "C03": c03, "C04": c04, "C06": c06, "C07": c07, "C08": c08, "C10": c10, "C11": c11, "C12": c12, "C18": c18, "C19": c19}
 
 
 def run(prop, tier, seed):
@@ -152,7 +426,11 @@ def replay(prop, path, seed):
     with open(vp, "w") as f:
         f.write(json.dumps(vec) + "\n")
     m = vec.get("m")
-    if m in ("generic", "swar"):
+    if m == "iseq":
+        args = ["replay-iseq", "--in", vp, "--threads", 1, "--tmp", os.path.join(ctx.dir, "iso")]
+    elif m == "iter":
+        args = ["replay-iter", "--in", vp, "--variants", 12, "--stretches", 12, "--threads", 1]
+    elif m in ("generic", "swar"):
         args = ["replay-generic", "--in", vp, "--variants", 10, "--stretches", 12, "--threads", 1]
         if m == "swar":
             args.append("--no-scaled")
